@@ -58,7 +58,10 @@ def build(case):
     for ti, t in enumerate(case["tasks"]):
         strategies = []
         for s in t["strats"]:
-            vec = {Resource(name=RES_NAMES[n], _id="any"): q for n, q in s["req"]}
+            vec = {}
+            for rq in s["req"]:      # [name, quantity] = `any`;  [name, quantity, [pool, worker, entry]] = that resource id
+                rid = "any" if len(rq) == 2 else "p%dw%de%d" % tuple(rq[2])
+                vec[Resource(name=RES_NAMES[rq[0]], _id=rid)] = rq[1]
             strategies.append(ExecutionStrategy(resources=Resources(resource_vector=vec, _logger=lg), batch_size=1,
                                                 runtime=et(s["runtime"])))
         prof = WorkProfile(name="prof%02d" % ti, execution_strategies=ExecutionStrategies(strategies=strategies))
